@@ -117,9 +117,9 @@ Proof. vm_compute. repeat split; congruence. Qed.
 Example C18_sample_wf : forall e, wf (sample e).
 Proof.
   intros e. constructor.
-  - vm_compute. reflexivity.
-  - vm_compute. reflexivity.
   - reflexivity.
-  - destruct e; vm_compute; repeat constructor.
+  - reflexivity.
+  - reflexivity.
+  - apply bounded_b; destruct e; vm_compute; reflexivity.
   - destruct e; vm_compute; reflexivity.
 Qed.
